@@ -19,12 +19,13 @@ ASSUMPTIONS = ["float()/repr round trip of CPython (float tokens and their parse
 TRUSTED = ["stdlib argparse (its optional-argument fragment is modelled in Model/Engine.lean and compared end to end)"]
 EXHAUSTIVE = {"quick": False, "thorough": False}
 MANIFEST = {
-    "text": ("Proof (partial): Lean model of argparse's optional-argument engine (lexing, nargs shapes, type/choices, "
+    "text": ("Proof (full on the modelled fragment; float parsing is a named parameter): Lean model of argparse's optional-argument engine (lexing, nargs shapes, type/choices, "
              "defaults), of get_arg_options / postprocess per annotation, and of the whole flat pipeline; theorems: the "
              "canonical rendering of any well-typed assignment parses back to exactly that assignment over the defaults, "
              "for any number of fields and any order of the option segments (induction over the segment list; one lemma per "
-             "nargs shape that greedy matching consumes exactly the segment), int print/parse round trip, order "
-             "independence. Float parsing is a parameter (hypothesis RoundTrips). The pipeline model is tied to the code by "
+             "nargs shape that greedy matching consumes exactly the segment), int print/parse round trip for every integer, order "
+             "independence, per-annotation lemmas (List, Tuple[T,...], Enum, Optional) and their composition through the table "
+             "construction into the flat pipeline (c02_flat_pipeline, c02_flat_list_field). Float parsing is a parameter (hypothesis RoundTrips). The pipeline model is tied to the code by "
              "the end-to-end op fields.parse and the unit op fields.argopts (real argparse actions of every field), and the "
              "property itself is evaluated on every real parse."),
     "note": ("Trusted: Lean kernel + standard axioms; harness. Modelled not verified: argparse 3.12.1 "
